@@ -7,6 +7,10 @@ import Rrtk.Drv.D
 import Rrtk.Drv.St
 import Rrtk.Drv.Ss
 import Rrtk.Drv.K
+import Rrtk.Drv.Mp
+import Rrtk.Drv.Se
+import Rrtk.Drv.Dv
+import Rrtk.Drv.Rf
 open Rrtk Rrtk.Drv
 
 def runLine (chk : Bool) (line : String) : String :=
@@ -18,6 +22,11 @@ def runLine (chk : Bool) (line : String) : String :=
   | "st" :: rest => runM (runSt chk rest)
   | "ss" :: rest => runM (runSs chk rest)
   | "k" :: rest => runM (runK chk rest)
+  | "mp" :: rest => runM (runMp chk rest)
+  | "se" :: rest => runM (runSe chk rest)
+  | "dv" :: rest => runM (runDv chk rest)
+  | "wr" :: rest => runM (runWr chk rest)
+  | "rf" :: rest => runM (runRf chk rest)
   | _ => "NOIMPL"
 
 partial def loop (chk : Bool) (hin : IO.FS.Stream) (hout : IO.FS.Stream) : IO Unit := do
